@@ -36,6 +36,9 @@ pub struct HistParams {
     /// which property the run is about: the history ends at the first problem of that property
     /// (problems of the other one do not end it, so that each check stands on its own)
     pub focus19: bool,
+    /// after every end-of-day the terminal holds the same dangling pre-authorisation again (its
+    /// receipt counter restarts): the next clean-up has to reverse that number once more
+    pub rearm_dangling: bool,
 }
 
 pub struct PolSt {
@@ -96,6 +99,9 @@ impl Policy for HistPolicy {
         }
         st.chosen.push((x, for_model, issued));
         let mut steps = default_script(t, req, &outcome, 1);
+        if st.p.rearm_dangling && req.key == "EndOfDay" && st.lazy {
+            t.dangling = st.p.dangling;
+        }
         if st.lazy && st.p.noise && matches!(x, Xch::Main | Xch::P1 | Xch::P2 | Xch::P3) && req.key != "ReadCard" {
             // deviations from the default reply shape: no / two intermediate statuses, a print line or
             // an extra (empty) status information ahead of the final packet
@@ -190,7 +196,8 @@ pub fn history(ctx: &mut Ctx, p: &HistParams, first: Option<usize>, acc: &mut Ac
                     let res = run_op(&sim, &mut feig, &op);
                     acc.count("transitions", 1);
                     let w = sim.w.borrow();
-                    let new: Vec<ReqRec> = w.t.reqs[r0..].to_vec();
+                    // the requests of this call, without those of a reconnect handshake that may precede them
+                    let new: Vec<ReqRec> = w.t.reqs[r0..].iter().filter(|r| r.key != "Registration" && r.key != "feig::CVendFunctions").cloned().collect();
                     let (_, e1) = w.t.traffic_marker();
                     let (chosen, eod, reported) = {
                         let s = st.borrow();
@@ -287,7 +294,7 @@ pub fn history(ctx: &mut Ctx, p: &HistParams, first: Option<usize>, acc: &mut Ac
                                 if new.len() != 1 || !diff.is_empty() {
                                     bad07(format!("expected exactly one Reservation for the configured amount and currency with the token as reference: {}", diff.join("; ")));
                                 }
-                                match chosen.first() {
+                                match chosen.iter().find(|(x, _, _)| !matches!(x, Xch::H1 | Xch::H2)) {
                                     Some((Xch::Main, Outcome::Ok | Outcome::OkExtraStatus, Some(r))) => {
                                         if !res.is_ok() {
                                             bad07(format!("the terminal issued receipt {r}: begin must succeed and record it, got {}", res.short()));
@@ -350,7 +357,7 @@ pub fn history(ctx: &mut Ctx, p: &HistParams, first: Option<usize>, acc: &mut Ac
                                 if !diff.is_empty() {
                                     bad07(format!("must act on exactly this token's receipt number: {}", diff.join("; ")));
                                 }
-                                match chosen.first() {
+                                match chosen.iter().find(|(x, _, _)| !matches!(x, Xch::H1 | Xch::H2)) {
                                     Some((Xch::Main, o @ (Outcome::Ok | Outcome::NoStatus), _)) => {
                                         let main_ok = *o == Outcome::Ok || !is_commit;
                                         let (pr, wi) = check_cleanup(&new, true, model.open.is_empty(), main_ok, is_commit);
@@ -380,7 +387,15 @@ pub fn history(ctx: &mut Ctx, p: &HistParams, first: Option<usize>, acc: &mut Ac
                                             }
                                         }
                                     }
-                                    other => bad07(format!("the request never reached the terminal ({other:?})")),
+                                    other => {
+                                        bad07(format!("the request never reached the terminal ({other:?})"));
+                                        // whatever the client sent instead: a call that reports success and leaves
+                                        // nothing open must have run the clean-up
+                                        if res.is_ok() {
+                                            let (pr, _) = check_cleanup(&new, true, model.open.is_empty(), true, is_commit);
+                                            c19.extend(pr);
+                                        }
+                                    }
                                 }
                             }
                         }
